@@ -826,9 +826,6 @@ func inlineCall(prog *load.Program, pk *load.Package, f *ast.File, src []byte, t
 				lt := string(src[tf.Offset(l.Pos()):tf.Offset(l.End())])
 				targets = append(targets, lt)
 				if id, isId := l.(*ast.Ident); isId && p.Tok == token.DEFINE && id.Name != "_" && pk.Info.Defs[id] != nil {
-					if declared[id.Name] {
-						return edit{}, "the helper declares a name the call site defines"
-					}
 					decls = append(decls, "var "+id.Name+" "+resultType(k)+"\n_ = "+id.Name)
 				}
 			}
